@@ -11,7 +11,7 @@ def _mm(sub, text, observed=None, expected=None):
     return {"sub": sub, "text": text, "observed": observed, "expected": expected}
 
 
-FRAMES = ((1.0, 0.0), (1.0, 2.0 ** 20), (2.0 ** -40, 0.0))
+FRAMES = ((1.0, 0.0), (1.0, 2.0 ** 30), (2.0 ** -40, 0.0))
 
 
 def mk(kind, o, sg=1.0, sh=0.0, int_x=False):
@@ -185,6 +185,17 @@ def _heap_frame(rec, be, kind, sg, sh, int_x, out):
             n += 1
             if bad:
                 break
+        # no state may leak through a later, unrelated operation (e.g. a cached result buffer):
+        # two fresh objects are added, every object of the heap must stay bit-identical
+        live = [o for o in rec["pre"] if len(o["x"])]
+        if not bad and len(live) >= 2:
+            snap = [arrays(kind, g) for g in heap]
+            u, v = mk(kind, live[0], sg, sh), mk(kind, live[-1], sg, sh)
+            st, r = call(lambda: (u.add(v), v.add(u), u.copy().mul_scalar(3.0)))
+            n += 1
+            if st == "ok" and any(not identical(arrays(kind, g), sn) for g, sn in zip(heap, snap)):
+                out.append(_mm(sub, "%s %s: a later add on unrelated objects changed an object of the heap "
+                                    "(state shared between calls)" % (sub, hdr)))
     return n
 
 
@@ -196,7 +207,7 @@ def chk_query(rec, be):
     out = []
     n = 0
     fo = {"x": [fr(v) for v in fq["x"]], "y1": fq["y1"], "y2": fq["y2"]}
-    frames = list(rec.get("_frames", ((1.0, 0.0, False), (2.0 ** -10, 0.0, False), (1.0, 0.0, True), (1.0, 2.0 ** 20, False))))
+    frames = list(rec.get("_frames", ((1.0, 0.0, False), (2.0 ** -10, 0.0, False), (1.0, 0.0, True), (1.0, 2.0 ** 30, False))))
     for sg, sh, int_x in frames:
         if int_x and not all(v.denominator == 1 for v in fo["x"]):
             continue
